@@ -10,6 +10,7 @@ DEFAULT_W = {
     "scope": 10, "cancel": 9, "cbcancel": 2, "shield": 2, "deadline": 3,
     "group": 7, "spawn": 9, "start": 4, "catch": 3, "catchall": 1, "finally": 4,
     "ncancel": 2, "uncancel": 1, "hcancel": 3, "hwait": 3, "started": 4,
+    "raisegroup": 1, "failafter": 2,
 }
 
 
@@ -46,7 +47,7 @@ class Gen:
         r = self.rng
         for _ in range(20):
             k = self.pick()
-            if k in ("scope", "group", "catch", "catchall", "finally") and depth >= self.max_depth:
+            if k in ("scope", "group", "catch", "catchall", "finally", "failafter") and depth >= self.max_depth:
                 continue
             if k == "yield":
                 return ["yield"]
@@ -65,6 +66,14 @@ class Gen:
             if k == "raise":
                 self.nerr += 1
                 return ["raise", self.nerr]
+            if k == "raisegroup":
+                self.nerr += 1
+                return ["raisegroup", r.choice([["n"], ["n", f"e{self.nerr}"], [f"e{self.nerr}", "n"]])]
+            if k == "failafter":
+                key = self.key("s")
+                self.scope_keys.append(key)
+                return ["failafter", {"k": key, "deadline": r.choice([None, 0, 1, 2, 3, 5])},
+                        self.body(depth + 1, level, in_group)]
             if k == "scope":
                 key = self.key("s")
                 self.scope_keys.append(key)
